@@ -200,7 +200,9 @@ def add_dyndep(draw, g, f_dd_validation=True):
     for d, info in sorted(g['dd_files'].items()):
         if info['produced'] or draw(st.integers(0, 2)) != 2:
             continue
-        for e in [x for x in edges if x.get('dd') == d and x.get('dd_outs')][:1]:
+        # (not below a statement that reads generated files it does not declare: with known finding D1 such a statement may
+        # run too early, and what happens to the consumers of its outputs then is that finding's business)
+        for e in [x for x in edges if x.get('dd') == d and x.get('dd_outs') and all(h in g['srcs'] for h in x.get('hidden', []))][:1]:
             edges.append(dict(outs=['odc_' + d], iouts=[], phony=False, exp=[e['outs'][0], e['dd_outs'][0]], imp=[], oo=[], vals=[], restat=False,
                               generator=False, deps='', hidden=[], variant='v0', pool='', rsp=None, dd=None, depfile_layout=0))
     for pe in producers:
@@ -432,7 +434,7 @@ def change_op():
 def macro_op():
     """fixed skeletons of related steps whose parameters are generated (which statement, which file, -j, schedule):
     they construct multi-step shapes that independent draws would need ~1e5 histories to line up"""
-    return st.fixed_dictionaries(dict(op=st.sampled_from(['m_swap_then_edit', 'm_rehide_then_edit', 'm_fail_then_fix', 'm_bloat_then_rebuild', 'm_missing_oo_source', 'm_overlapping_failures']),
+    return st.fixed_dictionaries(dict(op=st.sampled_from(['m_swap_then_edit', 'm_rehide_then_edit', 'm_fail_then_fix', 'm_bloat_then_rebuild', 'm_missing_oo_source', 'm_overlapping_failures', 'm_partial_restat_then_noop']),
                                       a=st.integers(0, 30), b=st.integers(0, 30), c=st.integers(0, 5),
                                       j=st.sampled_from([1, 2, 3]), sched=SCHED))
 
